@@ -6,7 +6,7 @@ import shutil
 from .. import nncommon as nc
 from .. import pool as pl
 from .. import tracecommon as tcm
-from ..core import MachineryFailure
+from ..core import MachineryFailure, mix
 
 FAMILY = ["CASSLGQAYEQYF", "CASSLGQAYEQF", "CASSLGAAYEQYF", "CASRLGQAYEQYF", "CASSLGQAYEQYF", "CASSPGQAYEQYF",
           "CASSLGQGYEQYF", "CASSLGQAYEHYF"]
@@ -130,6 +130,42 @@ def real_pool_session(nn, sid, seqs, ncpu, mode, cd, k):
     return dict(sid=sid, n=n, ncpu=ncpu, events=events, desc=dict(seqs=seqs, mode=mode, cd=cd, k=k))
 
 
+def surface_family(n, k, salt):
+    """n sequences of one length around x = p + a*k + q: y = p + b*k + q (exactly k substitutions of the same letter pair, i.e.
+    composition distance sqrt(2)*k), then single substitutions of x and y; the last one is always a neighbour of x or y."""
+    L = nc.AA
+    a, b = L[mix(salt) % len(L)], L[mix(salt + 1) % len(L)]
+    if a == b:
+        b = L[(L.index(a) + 1) % len(L)]
+    pre = "".join(L[mix(salt + 10 + i) % len(L)] for i in range(3))
+    post = "".join(L[mix(salt + 20 + i) % len(L)] for i in range(4))
+    x, y = pre + a * k + post, pre + b * k + post
+    out = [x, y]
+    i = 0
+    while len(out) < n:
+        src = out[i % 2]
+        pos = mix(salt + 100 + i) % len(src)
+        ch = L[mix(salt + 200 + i) % len(L)]
+        out.append(src[:pos] + ch + src[pos + 1:])
+        i += 1
+    return out[:n] if n >= 2 else [x]
+
+
+def _grid_item(ctx, i, item):
+    import pyrepseq.nn as nn
+    n, ncpu = item
+    k = 1 + mix(n * 31 + ncpu) % 3
+    comp = (1, 2, 5, 25)[mix(n * 17 + ncpu * 3) % 4]
+    mode, cd = MODES[mix(n + ncpu * 7) % len(MODES)]
+    seqs = surface_family(n, k, n * 1000 + ncpu)
+    if n >= 3:
+        seqs = seqs[2:] + seqs[:2] if mix(n + ncpu) % 2 else seqs          # the surface pair last (or first)
+    order = list(range(1, n + 1))
+    order = order[mix(n * ncpu) % n:] + order[:mix(n * ncpu) % n]
+    run_case(ctx, nn, seqs, ncpu, mode, cd, k, comp, order, desc="grid")
+    ctx.case(dict(kind="grid", n=n, ncpu=ncpu, compression=comp, mode=mode, k=k), nontrivial=ncpu > 1 and n > 1)
+
+
 def run(ctx):
     import pyrepseq.nn as nn
     ctx.rule = ("KdPool.tla: every interleaving of Take/Finish for <=5 tasks x <=4 workers x 2 consecutive calls is model-checked "
@@ -178,14 +214,22 @@ def run(ctx):
         ctx.rng.shuffle(order)
         run_case(ctx, nn, seqs, ncpu, mode, cd, k, comp, order, desc="sweep")
         ctx.case(dict(kind="sweep", n=n, ncpu=ncpu, compression=comp, mode=mode, k=k), nontrivial=ncpu > 1)
+    # ---- deterministic grid: every list size 1..48 with every worker count 1..16 (block-boundary arithmetic depends on the exact
+    #      ratio), the last sequence always has a neighbour; sequences include pairs that lie exactly on the surface of the search ball
+    #      (max_edits substitutions of one letter by one other letter), compression cycles through 1, 2, 5, 25
+    grid = [(n, c) for n in range(1, 49 if ctx.quick else 97) for c in range(1, 17)]
+    ctx.parallel(grid, _grid_item, chunk=64)
     # ---- max_returns sessions (TraceNN JoinLimited)
     sessions = []
-    for r in range(10 if ctx.quick else 80):
-        m = ctx.rng.choice([1, 2, 3])
-        k = ctx.rng.choice([1, 2, 3])
-        mode = ctx.rng.choice(["lev", "lev", "hamming", "custom"])
+    for r in range(24 if ctx.quick else 96):
+        m = 1 + mix(r) % 3
+        k = 1 + mix(r + 500) % 3
+        mode = ("lev", "lev", "hamming", "custom", "custom", "lev")[r % 6]         # every mode in turn, not left to the draw
         seqs = nc.repertoire(ctx.rng, ctx.rng.randint(8, 30), maxmut=2, maxlen=13, families=(1 if r % 3 == 0 else 3), same_length=(mode == "hamming" and r % 2 == 0))
-        if r % 4 == 1:
+        if r % 6 == 5:
+            # pairs exactly on the surface of the search ball, searched without compression and with it
+            seqs = surface_family(ctx.rng.randint(4, 12), k, r)
+        if r % 6 == 1:
             # equal lengths, deletion + insertion relatives, a generous limit: the number of reported neighbours per query is
             # min(limit, number of true neighbours) whatever the compression
             mode, k, m = "lev", ctx.rng.choice([2, 3]), ctx.rng.choice([3, 5])
@@ -198,8 +242,8 @@ def run(ctx):
                 if t % 4 == 3:
                     x = seqs[-1]
         inp = nc.make_inp("kd", mode, k, seqs, cd="hamlen" if mode == "custom" else "none", maxc=8 if mode == "custom" else nc.INF,
-                          comp=ctx.rng.choice([1, 2, 5]))
-        ncpu = ctx.rng.choice([1, 2, 3]) if r % 2 else (16, 40, 7)[r // 2 % 3]        # also far more workers than sequences
+                          comp=(1, 2, 5)[mix(r + 900) % 3] if r % 6 != 4 else (2, 5)[r // 6 % 2])
+        ncpu = (1, 2, 3)[mix(r + 300) % 3] if r % 2 else (16, 40, 7)[r // 2 % 3]        # also far more workers than sequences
         raised, ret = None, []
         try:
             order = list(range(1, len(seqs) + 1))
@@ -269,7 +313,7 @@ def run(ctx):
             else:
                 ctx.note(f"real pool n={s['n']} ncpu={s['ncpu']}: internal drift {op}:{clause}")
     # corrupted real trace
-    good = next((s for s in real if s["ncpu"] > 1 and any(e["op"] == "Chunk" for e in s["events"])), None)
+    good = next((s for s in real if s["ncpu"] > 1 and verd[s["sid"]] is not None and any(e["op"] == "Chunk" for e in s["events"])), None)
     if good:
         c = copy.deepcopy(good)
         c["sid"] = 980000
